@@ -148,6 +148,12 @@ impl<S: MdkStorageProvider> Scene<S> {
                 };
                 (t.join(" "), self.fingerprint(res))
             }
+            "SELFUPDATE" => {
+                // B rotates its key in group g (self_update + merge of the pending commit): the post-join obligation is discharged
+                let gid = self.gid(n(2));
+                let done = catch_unwind(AssertUnwindSafe(|| self.b.self_update(&gid).is_ok() && self.b.merge_pending_commit(&gid).is_ok())).unwrap_or(false);
+                (format!("{} | done={}", t.join(" "), done as u8), self.fingerprint(if done { "ok" } else { "err" }))
+            }
             "KICK" => {
                 // B is offered the commit that removed it from group 2
                 self.build_reinvite();
@@ -193,7 +199,8 @@ fn run_all<S: MdkStorageProvider, F: Fn() -> S>(run: &mut Run, mk: F, backend: &
                 cur.push(if k < 50 { format!("WL PROCESS {inv} {}", g.below(3) + if inv == 6 { 3 } else if inv == 7 { 6 } else { 0 }) }
                     else if k < 68 { format!("WL ACCEPT {}", *g.pick(&[0u64, 0, 6, 4, 6])) }
                     else if k < 82 { format!("WL DECLINE {}", *g.pick(&[0u64, 6, 0, 5, 7])) }
-                    else if k < 88 { "WL KICK".to_string() }
+                    else if k < 86 { "WL KICK".to_string() }
+                    else if k < 91 { format!("WL SELFUPDATE {}", g.below(2) + 1) }
                     else { format!("WL MSG {} {}", g.below(2) + 1, g.below(50)) });
             }
             seqs.push(cur);
@@ -223,7 +230,8 @@ fn run_all<S: MdkStorageProvider, F: Fn() -> S>(run: &mut Run, mk: F, backend: &
                     run.oracle_fail("C16", "", format!("[{backend}] `{l}` made group {g} active without acceptance: {b} -> {a}"), hist.join(" || "));
                 }
                 // accepting joins and leaves the key-rotation obligation pending
-                if t[1] == "ACCEPT" && fp.starts_with("res=ok") && a.starts_with(&format!("g{g}=0/")) && !was_active && !a.ends_with("/1/1") {
+                let accepted_group = if t[1] == "ACCEPT" { sc.invs.get(t[2].parse::<usize>().unwrap()).map(|i| i.gid) } else { None };
+                if t[1] == "ACCEPT" && fp.starts_with("res=ok") && a.starts_with(&format!("g{g}=0/")) && (!was_active || accepted_group == Some(g)) && !a.ends_with("/1/1") {
                     run.oracle_fail("C16", "", format!("[{backend}] accepted invitation but group {g} is not (joined, self-update required): {a}"), hist.join(" || "));
                 }
             }
